@@ -413,12 +413,20 @@ func registerReflectSet(p *Program) {
 func (m *Machine) assignTo(src *RV, dst types.Type, method string) Value {
 	if src.N != nil {
 		if _, ok := dst.Underlying().(*types.Interface); ok {
+			w := m.nodeWrap(src.N)
 			if src.Wrapped {
-				if m.Branch(m.nodeTagIn(src.N, TagNull), "assign-nil") {
+				if w == 0 && m.Branch(m.nodeTagIn(src.N, TagNull), "assign-nil") {
 					return Iface{}
 				}
+				return Iface{T: m.P.NodeT, V: src.N}
 			}
-			return Iface{T: m.P.NodeT, V: src.N}
+			if src.Ptr == w {
+				return Iface{T: m.P.NodeT, V: src.N}
+			}
+			if src.Ptr == 0 {
+				return Iface{T: m.P.NodeT, V: NodeInner{src.N}}
+			}
+			unsupported("assignment of partially unwrapped node")
 		}
 		unsupported("assignment of symbolic node to %s", dst)
 	}
